@@ -192,6 +192,21 @@ func main() {
 			x.flush()
 		})
 
+		// ---- arguments that overlap each other
+		r.Cases("aliasing", 9, workers, func(c *vkit.Case) {
+			x := newCx(c, true)
+			if c.Index == 8 {
+				setsAliased(x)
+			} else {
+				insertAliased(x, c.Index)
+				if c.Index <= 5 {
+					readOnlyAliased(x, c.Index)
+					removeReuse(x, c.Index)
+				}
+			}
+			x.flush()
+		})
+
 		// ---- random large
 		nLarge := r.Scale(240, 4000)
 		maxN := r.Scale(1500, 20000)
@@ -267,6 +282,12 @@ func main() {
 			r.Floor("argument-list integrity checks of "+fn, r.Table("argument integrity", fn), 1)
 		}
 		r.Floor("Merge with an empty input that is not last", r.Table("argument integrity", "xsort.Merge with an empty input that is not last"), 1)
+		for _, k := range []string{"Insert in place with values from s itself", "Insert reallocating with values from s itself", "Equal/EqualFunc/Join of overlapping windows", "reuse of the slice returned by Remove", "set algebra with one set passed several times"} {
+			r.Floor("aliasing arguments: "+k, r.Table("aliasing arguments", k), 1)
+		}
+		for _, fn := range []string{"xslices.Clone", "xslices.Filter", "xslices.Map", "xslices.Unique", "xslices.Compact", "xslices.CompactFunc", "xslices.Join", "xsort.MergeSlices", "xmaps.Union", "xmaps.Intersection", "xmaps.Difference"} {
+			r.Floor("result-independence checks of "+fn, r.Table("result independence", fn), 1)
+		}
 		r.Floor("Runs inputs with a leading run of length one", r.Table("runs", "leading run of length one"), 1)
 		r.Floor("Partition inputs with both sides non-empty", r.Table("partition", "both sides non-empty"), 1)
 		r.Floor("RemoveUnordered calls that fill a gap from the end", r.Table("remove-unordered", "gap filled from the end"), 1)
